@@ -84,6 +84,10 @@ def main():
     old = []
     tj = Path("/tmp/seed/triage.json")
     if tj.exists():
+        prev = {(x["property"], x["seed"]): x for x in json.load(open(tj))}
+        for r in allres:
+            if "tests_missing" not in r and "tests_missing" in prev.get((r["property"], r["seed"]), {}):
+                r["tests_missing"] = prev[(r["property"], r["seed"])]["tests_missing"]
         old = [r for r in json.load(open(tj)) if (r["property"], r["seed"]) not in {(x["property"], x["seed"]) for x in allres}]
     json.dump(old + allres, open(tj, "w"), indent=1)
     for r in allres:
